@@ -45,7 +45,8 @@ RequestCases ==
 FailCases ==
     {[Base EXCEPT !.name = nm, !.tgt = "err"] : nm \in {"", "n"}}
     \cup {[Base EXCEPT !.name = nm, !.build = b] : nm \in {"", "n"}, b \in {"badmethod", "badurl"}}
-    \cup {[Base EXCEPT !.name = nm, !.transport = "error", !.reqbody = rb] : nm \in {"", "n"}, rb \in {0, 3}}
+    \cup {[Base EXCEPT !.name = nm, !.transport = "error", !.reqbody = rb, !.maxbody = mb, !.policy = p] :
+               nm \in {"", "n"}, rb \in {0, 3}, mb \in {-1, 0, 2, 5}, p \in {"nofollow", "n0", "n10"}}     \* (the early failures do not depend on how a response would have been treated)
 \* response side: redirects, status, body size, read faults, max-body
 ResponseCases ==
     {[Base EXCEPT !.chain = ch, !.policy = p, !.status = st, !.size = sz, !.fault = f, !.maxbody = mb] :
